@@ -473,9 +473,16 @@ class StmtMixin:
         p.pc = []
         self.probing += 1
         try:
+            ghost_before = {k: v.z for k, v in p.ghost.items()}
             if prelude is not None:
                 prelude(p)
-            self.exec_block(body, p)
+            pouts = self.exec_block(body, p)
+            self.last_probe_ghosts = set()
+            for po in pouts:
+                for k, v in po.st.ghost.items():
+                    b = ghost_before.get(k)
+                    if b is None or v.z is None or not b.eq(v.z):
+                        self.last_probe_ghosts.add(k)
         finally:
             self.probing -= 1
         w = set(p.written)
@@ -558,6 +565,12 @@ class StmtMixin:
                 st.havoc_field(f)
         if fresh_fields:
             st.bump_alloc()
+        if lp.modifies_fields is None:
+            for g in getattr(self, "last_probe_ghosts", set()):
+                gv = st.ghost.get(g)
+                if gv is not None and gv.z is not None and hint_kind(gv.th) not in ("list", "dict", "set"):
+                    st.ghost[g] = self.typed(st, fresh("lg_" + g), gv.th)
+        self.last_probe_ghosts = set()
         for n in assigned_names(body):
             if n in skip:
                 continue
